@@ -66,3 +66,9 @@ CORPUS += [
         expect=[('C20.S', 'ConstantCoalescentIntegrated.log_prob::closed-form')]),
     Mut('c20-benign-field-dimension-through-a-local', GM, '', "        dim = self.field.shape[-1] - 1.0  # field dim\n", "        size = self.field.shape[-1]\n        dim = size - 1\n", mode='text', benign=True),
 ]
+CORPUS += [
+    Mut('c20-hyper-parameters-become-default-precision-tensors', CO, '', "        super().__init__(validate_args=validate_args)\n        self.alpha = alpha\n        self.beta = beta\n",
+        "        super().__init__(validate_args=validate_args)\n        self.alpha = torch.as_tensor(alpha)\n        self.beta = torch.as_tensor(beta)\n", mode='text',
+        more=[dict(scope='', old="            self.alpha * math.log(self.beta)\n", new="            self.alpha * torch.log(self.beta)\n", mode='text')],
+        expect=[('C20.S', 'evolution.coalescent::ConstantCoalescentIntegrated.__init__::self.alpha')]),
+]
